@@ -86,7 +86,8 @@ impl Parse for JoinInputDefault {
             WRAPPER_DETERMINER,
         );
 
-        for _ in 0..4 {
+        // Options may come in any order, each at most once.
+        loop {
             if input.peek(keywords::futures_crate_path) {
                 input.parse::<keywords::futures_crate_path>()?;
                 let content;
@@ -95,9 +96,7 @@ impl Parse for JoinInputDefault {
                     return Err(input.error("futures_crate_path specified twice"));
                 }
                 join.futures_crate_path = Some(content.parse()?);
-            }
-
-            if input.peek(keywords::custom_joiner) {
+            } else if input.peek(keywords::custom_joiner) {
                 input.parse::<keywords::custom_joiner>()?;
                 let content;
                 parenthesized!(content in input);
@@ -105,9 +104,7 @@ impl Parse for JoinInputDefault {
                     return Err(input.error("custom_joiner specified twice"));
                 }
                 join.custom_joiner = Some(content.parse()?);
-            }
-
-            if input.peek(keywords::transpose_results) {
+            } else if input.peek(keywords::transpose_results) {
                 input.parse::<keywords::transpose_results>()?;
                 let content;
                 parenthesized!(content in input);
@@ -115,9 +112,7 @@ impl Parse for JoinInputDefault {
                     return Err(input.error("transpose_results specified twice"));
                 }
                 join.transpose_results = Some(content.parse::<LitBool>()?.value);
-            }
-
-            if input.peek(keywords::lazy_branches) {
+            } else if input.peek(keywords::lazy_branches) {
                 input.parse::<keywords::lazy_branches>()?;
                 let content;
                 parenthesized!(content in input);
@@ -125,6 +120,8 @@ impl Parse for JoinInputDefault {
                     return Err(input.error("lazy_branches specified twice"));
                 }
                 join.lazy_branches = Some(content.parse::<LitBool>()?.value);
+            } else {
+                break;
             }
         }
 
